@@ -7,11 +7,13 @@ import (
 
 	"github.com/go-kit/log"
 	"go.universe.tf/metallb/internal/config"
+	"go.universe.tf/metallb/internal/layer2"
 	"go.universe.tf/metallb/internal/speakerlist"
 	vr "go.universe.tf/metallb/internal/verifrt"
 	v1 "k8s.io/api/core/v1"
 	discovery "k8s.io/api/discovery/v1"
 	metav1 "k8s.io/apimachinery/pkg/apis/meta/v1"
+	"k8s.io/apimachinery/pkg/util/sets"
 )
 
 func init() {
@@ -47,6 +49,7 @@ type vhView struct {
 	sl    vhFakeSL
 	ip    net.IP
 	more  []net.IP // further addresses of the service (dual-stack); the election key is the first one
+	hist  bool     // every node's speaker has an arbitrary local history: it may already announce the service
 }
 
 // Focus bits: which facts of the view are symbolic (the others take their benign default).
@@ -183,6 +186,13 @@ func (v *vhView) elect(name string) []bool {
 	won := make([]bool, v.n)
 	for i := 0; i < v.n; i++ {
 		c := &layer2Controller{myNode: vhNodeNames[i], sList: v.sl, ignoreExcludeLB: v.ignore}
+		if v.hist {
+			// local history of this speaker: it may have been announcing the service already
+			c.announcer = layer2.VerifNewAnnounce([]string{"eth0"})
+			if vr.Bool() {
+				c.announcer.SetBalancer(name, layer2.NewIPAdvertisement(v.ip, true, sets.New[string]()))
+			}
+		}
 		won[i] = c.ShouldAnnounce(log.NewNopLogger(), name, append([]net.IP{v.ip}, v.more...), v.pool, v.svc, v.eps, v.nodes) == ""
 	}
 	return won
@@ -238,6 +248,8 @@ func VerifL2Failover(n, focus, order int) {
 	}
 	// the first view is listed in canonical order, the second in every order of the chosen mode
 	w1 := v1v.elect("ns/one")
+	// focus bit 32: the speakers of the second view have arbitrary local histories
+	v2v.hist = focus&32 != 0
 	vr.MapOrder(order)
 	w2 := v2v.elect("ns/two")
 	vr.MapOrder(vr.OrderInsertion)
